@@ -32,6 +32,30 @@ void stmt(Ctx& c, LZ lazy, EG eager) {
     }
 }
 
+// the same differential oracle on NON-square operands: A (MxK), B (KxN), Bt (NxK), Ct (NxM), E and the destination D (MxN).  Every lazy node that
+// needs evaluation has one overload per assignment operator; an extent mix-up in one of them is invisible on square matrices.
+template <class T, size_t M, size_t K, size_t N, bool EXACT, class LZ, class EG>
+void stmt_nsq(Ctx& c, LZ lazy, EG eager) {
+    Rng g = c.rng();
+    Tensor<T, M, K> A; Tensor<T, K, N> B; Tensor<T, N, K> Bt; Tensor<T, N, M> Ct; Tensor<T, M, N> E, D0;
+    for (int rep = 0; rep < 4; ++rep) {
+        if (EXACT) { fill_small(A.data(), M * K, g, 3); fill_small(B.data(), K * N, g, 3); fill_small(Bt.data(), K * N, g, 3); fill_small_nz(Ct.data(), M * N, g, 3); fill_small_nz(E.data(), M * N, g, 3); fill_small_nz(D0.data(), M * N, g, 3); }
+        else { fill_real(A.data(), M * K, g, 0.5, 2); fill_real(B.data(), K * N, g, 0.5, 2); fill_real(Bt.data(), K * N, g, 0.5, 2); fill_real(Ct.data(), M * N, g, 0.5, 2); fill_real(E.data(), M * N, g, 0.5, 2); fill_real(D0.data(), M * N, g, 0.5, 2); }
+        T s = opaque((T)g.range(2, 3));
+        Framed<Tensor<T, M, N>> DL, DE; std::memcpy(DL->data(), D0.data(), sizeof(T) * M * N); std::memcpy(DE->data(), D0.data(), sizeof(T) * M * N); launder(DL->data()); launder(DE->data());
+        VP_LIB(lazy(*DL, A, B, Bt, Ct, E, s));
+        { scrub_stack(); eager(*DE, A, B, Bt, Ct, E, s); }
+        launder(DL->data()); launder(DE->data());
+        long double mx = 1; for (size_t i = 0; i < M * N; ++i) if (std::isfinite((double)DE->data()[i])) mx = std::max(mx, fabsl((long double)DE->data()[i]));
+        for (size_t i = 0; i < M * N; ++i) {
+            if (EXACT) c.eqn(DL->data()[i], DE->data()[i], "D(lazy) vs D(eager)", (long)i, "lazy-differs-from-eager");
+            else { if (!std::isfinite((double)DE->data()[i])) { ++c.notes["eager-result-not-finite"]; continue; } c.near(DL->data()[i], (long double)DE->data()[i], 512.0L * (K + 2) * unit_roundoff<T>() * mx, "D(lazy) vs D(eager)", (long)i, "lazy-differs-from-eager"); }
+        }
+        DL.verify(c, "D(lazy)"); DE.verify(c, "D(eager)");
+        if (rep == 0) c.nontrivial = distinct_count(DE->data(), M * N) >= 2 || M * N == 1;
+    }
+}
+
 // chain of lazy matrix products against the left-to-right eager product (exact small-integer regime: any association gives the same bits)
 template <class T, size_t D0, size_t D1, size_t D2, size_t D3>
 void chain3(Ctx& c) {
